@@ -37,6 +37,17 @@ CHECKS["C08"] = {
     "note": TB + "; exhaustive only within MaxLen=3 and the 5/9-object universe; longer histories are sampled",
 }
 
+CHECKS["C15"] = {
+    "text": "TLC explores all 1890 abstract month values (ints -1..14, digit strings with leading zeros, all 2^n case "
+            "patterns of every abbreviation and full name, enclosed text, other words, non-string values, absent field) "
+            "under every stack of one or two month middlewares and proves Table/Compose/Identity for the operational "
+            "transcription of month.py; all 24k edges are replayed on the real middlewares in place and in copy mode "
+            "comparing value and type; random values of any type and arbitrary Unicode digits are validated by a TLC "
+            "trace spec for totality/identity/table.",
+    "ref": "6/C15", "technique": "TLA+ spec (Month.tla) + TLC complete enumeration replay + TLC trace validation",
+    "note": TB + "; the English month names used to concretise abstract values are reference data of the harness",
+}
+
 NOT_APPLICABLE = {}
 for _e in ENGINES:
     _e["serves_properties"] = sorted(CHECKS)
